@@ -28,6 +28,10 @@ pub fn search(_seed: u64) -> String {
         let mut pool: Vec<NodePtr> = vec![a.nil(), a.one()];
         pool.push(a.new_atom(&[0x80]).unwrap());
         pool.push(a.new_atom(&[7u8; 40]).unwrap());
+        // non-canonical one- and two-byte atoms (stored on the heap, never inline)
+        pool.push(a.new_atom(&[0x00]).unwrap());
+        pool.push(a.new_atom(&[0x00, 0x05]).unwrap());
+        pool.push(a.new_atom(&[0x00, 0x24]).unwrap());
         pool.push(a.new_small_number(36).unwrap());
         pool.push(a.new_small_number(37).unwrap());
         // grow a pool of trees; every new pair may reuse earlier nodes (shared sub-trees)
